@@ -468,6 +468,9 @@ func conclude(p *Prop, tier string, seed uint64, nshards int, m *Merged, inconcl
 		fmt.Printf("... and %d more distinct violation keys (replay files written)\n", nviol-40)
 	}
 	if writeEvidence {
+		if m.Samples == nil {
+			m.Samples = []any{}
+		}
 		cov := map[string]any{
 			"evaluations":          m.Evals,
 			"distinct_nontrivial":  m.Distinct,
